@@ -89,7 +89,7 @@ theorem pos_lt_iff (inp : List InEdge) (hs : SortedBySrc inp) (i j : Nat) (hj : 
     have hs' : SortedBySrc l := (List.pairwise_cons.mp hs).2
     have ha : ∀ x ∈ l, a.src ≤ x.src := (List.pairwise_cons.mp hs).1
     by_cases h1 : a.src < i
-    · have hc : cntLt (a :: l) i = cntLt l i + 1 := by simp [cntLt, List.filter_cons, h1]
+    · have hc : cntLt (a :: l) i = cntLt l i + 1 := by simp [cntLt, h1]
       cases j with
       | zero => simp [hc, h1]
       | succ j =>
@@ -99,7 +99,7 @@ theorem pos_lt_iff (inp : List InEdge) (hs : SortedBySrc inp) (i j : Nat) (hj : 
         rw [hc]; omega
     · have hnil : l.filter (fun e => decide (e.src < i)) = [] :=
         filter_lt_nil_of_ge l i (fun x hx => by have := ha x hx; omega)
-      have hc : cntLt (a :: l) i = 0 := by simp [cntLt, List.filter_cons, h1, hnil]
+      have hc : cntLt (a :: l) i = 0 := by simp [cntLt, h1, hnil]
       rw [hc]
       constructor
       · intro h
@@ -219,7 +219,7 @@ theorem split_lt_ge (l : List InEdge) (hs : SortedBySrc l) (i : Nat) :
         intro x hx
         have := ha x hx
         simp; omega
-      simp [List.filter_cons, h1, h2, hnil, hall]
+      simp [h1, h2, hnil, hall]
 
 theorem sorted_filter (l : List InEdge) (hs : SortedBySrc l) (p : InEdge → Bool) : SortedBySrc (l.filter p) :=
   List.Pairwise.sublist List.filter_sublist hs
@@ -256,7 +256,7 @@ theorem slice_eq_filter (l : List InEdge) (hs : SortedBySrc l) (n : Nat) :
         simp [c1, c2, c3]; omega
       · by_cases c3 : a.src = n
         · have c2 : a.src < n + 1 := by omega
-          simp [c1, c2, c3]; subst c3; omega
+          simp [c3]; subst c3; omega
         · have c2 : ¬ a.src < n + 1 := by omega
           simp [c1, c2, c3]; omega
   have hdrop : l.drop (cntLt l n) = l.filter (fun e => decide (n ≤ e.src)) := by
